@@ -116,8 +116,12 @@ def w_args_for(tier):
     return a
 
 
+def big_args():
+    return dict(pids=["a", "b"], contents=[C_ONE, big_bytes(70001)], formats=[None], sym_dirs=False, blksize=4096)
+
+
 def replay(tier, payload):
-    a = dict(w_args_for(tier), mode="native")
+    a = dict(big_args() if payload.get("large") else w_args_for(tier), mode="native")
     w = World(**a)
     try:
         pins = []
@@ -143,15 +147,16 @@ def main(tier, replay_payload=None):
     run.replayer = lambda payload: replay(tier, payload)
     a = w_args_for(tier)
 
-    def worker(vn):
-        w = World(**a)
-        ps = PathSym(w.inv() + [VARV == vn])
+    def worker(job):
+        vn, large = job
+        w = World(**(big_args() if large else a))
+        ps = PathSym(w.inv() + [VARV == vn] + ([KV == 1] if large else []))
         recs = ps.explore(lambda p: both(p, w))
-        return recs, ps.st.as_dict()
+        return recs, ps.st.as_dict(), large
     from engine import battery
     battery.validate(run)
-    nv = len(variants(b"x"))
-    for recs, st in par_explore(worker, list(range(nv))):
+    nv = len(variants(C_ONE))
+    for recs, st, large in par_explore(worker, [(v, False) for v in range(nv)] + [(v, True) for v in range(nv)]):
         run.add_stats(st)
         for r in recs:
             run.reach[r["rA"]] += 1
@@ -160,12 +165,13 @@ def main(tier, replay_payload=None):
             run.discharged += r["nob"] - min(r["nob"], len(r["bad"]))
             if r["bad"]:
                 cl = sorted(set(b[0] for b in r["bad"]))
-                sig = "validation data %s :: %s :: one-call=%s in-steps=%s :: pre-state: %s" % (
-                    r["variant"], "+".join(cl), r["rA"], r["rB"], r["relation"])
+                sig = "validation data %s :: %s :: one-call=%s in-steps=%s :: pre-state: %s%s" % (
+                    r["variant"], "+".join(cl), r["rA"], r["rB"], r["relation"], " (70001-byte content)" if large else "")
                 run.fail(sig, dict(variant=r["variant"], failing=r["bad"], pre_state=r["vals"]),
-                         dict(harness="c19", vals=r["vals"], clauses=cl))
+                         dict(harness="c19", vals=r["vals"], clauses=cl, large=large))
     run.functions = loader.function_lines(loader.load(), API_FUNCS)
-    run.bounds = dict(pids=a["pids"], contents=[len(c) for c in a["contents"]], validation=[v[0] for v in variants(b"x")],
+    run.bounds = dict(pids=a["pids"], contents=[len(c) for c in a["contents"]], validation=[v[0] for v in variants(C_ONE)],
+                      large_content="70001 bytes, 4096-byte blocks, two pids",
                       state="arbitrary Inv state (same symbolic variables for both copies)")
     run.explanation = ("From one symbolic Inv state two copies of the store are built inside one path; copy A runs "
                        "store_object(pid, data, checksum, algorithm, size), copy B runs store_object(data), "
